@@ -9,30 +9,232 @@ import (
 	"kgv/internal/eng"
 )
 
+// ---------------------------------------------------------------------------------------
+// boolFact: "the boolean value v evaluating to pol implies FACT", where FACT is given by its
+// atomic relations. The decision is structural over negation, comparisons with boolean
+// constants, phis (`a && b`, `a || b`, flag variables, named condition locals: every incoming
+// edge must carry the fact, either in its value or in the branch conditions under which the
+// edge is taken) and calls of repository predicates (every return must carry the fact, in
+// its value or in the conditions guarding it). It is what makes a rule of the form "X happens
+// only on an edge where FACT holds" independent of how the condition was written: `if a || b`,
+// `same := !a && !b; if same { return }`, `if f.changed(n) {…}`, `switch { case a: … }`.
+
+// callBind binds the parameters of a function entered through one particular call.
+type callBind struct {
+	call   ssa.CallInstruction
+	parent *callBind
+}
+
+// arg returns the argument bound to parameter p by the innermost binding for p's function.
+func (fr *callBind) arg(p *ssa.Parameter) (arg ssa.Value, up *callBind, ok bool) {
+	if fr == nil || fr.call == nil || p == nil {
+		return nil, nil, false
+	}
+	callee := fr.call.Common().StaticCallee()
+	if callee == nil {
+		if mc, isMC := fr.call.Common().Value.(*ssa.MakeClosure); isMC {
+			callee, _ = mc.Fn.(*ssa.Function)
+		}
+	}
+	if callee != p.Parent() {
+		return nil, nil, false
+	}
+	i := eng.ParamIndex(p)
+	if i < 0 || i >= len(fr.call.Common().Args) {
+		return nil, nil, false
+	}
+	return fr.call.Common().Args[i], fr.parent, true
+}
+
+type boolFact struct {
+	w *eng.World
+	// atom reports whether relation r states the fact; operands that are parameters of a
+	// helper are resolved by the atom itself (fr: the calls the evaluation descended through).
+	atom func(r eng.Rel, fr *callBind) bool
+}
+
+// resolve follows a parameter into the argument bound to it: through the calls the
+// evaluation descended through, else into the call sites of a helper whose callers are all
+// known and agree on the argument.
+func (b *boolFact) resolve(v ssa.Value, fr *callBind) (ssa.Value, *callBind) {
+	for i := 0; i < 2*eng.LiftDepth; i++ {
+		p, ok := v.(*ssa.Parameter)
+		if !ok {
+			break
+		}
+		if a, up, bound := fr.arg(p); bound {
+			v, fr = a, up
+			continue
+		}
+		if r := b.w.ResolveUp(v); r != v {
+			v, fr = r, nil
+			continue
+		}
+		break
+	}
+	return v, fr
+}
+
+func (b *boolFact) implies(v ssa.Value, pol bool, fr *callBind, seen map[ssa.Value]bool, depth int) bool {
+	for {
+		if u, ok := v.(*ssa.UnOp); ok && u.Op == token.NOT {
+			v, pol = u.X, !pol
+			continue
+		}
+		break
+	}
+	if _, isParam := v.(*ssa.Parameter); isParam {
+		v, fr = b.resolve(v, fr)
+	}
+	if eng.IsBoolConst(v, !pol) {
+		return true // v cannot be pol: vacuous
+	}
+	if eng.IsBoolConst(v, pol) {
+		return false
+	}
+	if seen[v] {
+		return true // cycle through a loop phi: decided by the other edges
+	}
+	seen[v] = true
+	defer delete(seen, v)
+	switch n := v.(type) {
+	case *ssa.BinOp:
+		switch n.Op {
+		case token.EQL, token.NEQ:
+			for _, pr := range [][2]ssa.Value{{n.X, n.Y}, {n.Y, n.X}} {
+				for _, k := range []bool{true, false} {
+					if eng.IsBoolConst(pr[1], k) {
+						// (x == k) is pol  ⇔  x is (pol ? k : !k);  (x != k) is pol  ⇔  x is (pol ? !k : k)
+						want := k
+						if (n.Op == token.EQL) != pol {
+							want = !k
+						}
+						return b.implies(pr[0], want, fr, seen, depth)
+					}
+				}
+			}
+		case token.LSS, token.LEQ, token.GTR, token.GEQ:
+		default:
+			return false
+		}
+		return b.atom(eng.RelOf(n, pol), fr)
+	case *ssa.Phi:
+		for i, e := range n.Edges {
+			if b.implies(e, pol, fr, seen, depth) {
+				continue
+			}
+			if !b.anyGuard(factEdgeGuards(n.Block(), i), fr, seen, depth) {
+				return false
+			}
+		}
+		return true
+	case *ssa.Call:
+		return b.callImplies(n, 0, pol, fr, seen, depth)
+	case *ssa.Extract:
+		if call, ok := n.Tuple.(*ssa.Call); ok {
+			return b.callImplies(call, n.Index, pol, fr, seen, depth)
+		}
+	}
+	return false
+}
+
+// factEdgeGuards returns the branch conditions that hold when block b is entered through its
+// i-th predecessor.
+func factEdgeGuards(b *ssa.BasicBlock, i int) []eng.Guard {
+	pred := b.Preds[i]
+	gs := append([]eng.Guard{}, eng.GuardsOfBlock(pred)...)
+	if len(pred.Instrs) > 0 {
+		if iff, ok := pred.Instrs[len(pred.Instrs)-1].(*ssa.If); ok && pred.Succs[0] != pred.Succs[1] {
+			if pred.Succs[0] == b {
+				gs = append(gs, eng.Guard{If: iff, Branch: true})
+			} else if pred.Succs[1] == b {
+				gs = append(gs, eng.Guard{If: iff, Branch: false})
+			}
+		}
+	}
+	return gs
+}
+
+func (b *boolFact) anyGuard(gs []eng.Guard, fr *callBind, seen map[ssa.Value]bool, depth int) bool {
+	for _, g := range gs {
+		if b.implies(g.If.Cond, g.Branch, fr, seen, depth) {
+			return true
+		}
+	}
+	return false
+}
+
+func (b *boolFact) callImplies(call *ssa.Call, idx int, pol bool, fr *callBind, seen map[ssa.Value]bool, depth int) bool {
+	callee := call.Call.StaticCallee()
+	if callee == nil {
+		if mc, ok := call.Call.Value.(*ssa.MakeClosure); ok {
+			callee, _ = mc.Fn.(*ssa.Function)
+		}
+	}
+	if callee == nil || depth <= 0 || !eng.Analysable(callee) {
+		return false
+	}
+	nf := &callBind{call: call, parent: fr}
+	n := 0
+	ok := true
+	eng.Instrs(callee, func(ins ssa.Instruction) {
+		r, isR := ins.(*ssa.Return)
+		if !isR || r.Block() == callee.Recover {
+			return
+		}
+		res := eng.ReturnResults(r)
+		if idx >= len(res) {
+			ok = false
+			return
+		}
+		n++
+		if b.implies(res[idx], pol, nf, seen, depth-1) {
+			return
+		}
+		if !b.anyGuard(eng.GuardsOf(r), nf, seen, depth-1) {
+			ok = false
+		}
+	})
+	return ok && n > 0
+}
+
+// edge: on the CFG edge from -> from.Succs[succIdx] the fact holds.
+func (b *boolFact) edge(from *ssa.BasicBlock, succIdx int) bool {
+	if len(from.Instrs) == 0 || len(from.Succs) != 2 || from.Succs[0] == from.Succs[1] {
+		return false
+	}
+	iff, ok := from.Instrs[len(from.Instrs)-1].(*ssa.If)
+	if !ok {
+		return false
+	}
+	return b.implies(iff.Cond, succIdx == 0, nil, map[ssa.Value]bool{}, eng.LiftDepth)
+}
+
 // c05ResizeApplied (C05.R6 / C06.R6): a changed limit is always applied. In the local wrapper's
-// Sync, on the edge where the schema type equals a flow-control type constant every path to an
-// exit passes a Resize call: no test on the new value (e.g. "max > 0") may skip it, because
-// the new configuration has already been recorded and an identical later Sync returns early.
+// Sync, on an edge where the schema type is known to equal a flow-control type constant every
+// path to an exit passes a Resize call: no test on the new value (e.g. "max > 0") may skip it,
+// because the new configuration has already been recorded and an identical later Sync returns
+// early. The type test and the Resize may sit in helpers the body of Sync was spread over; the
+// test may be written as ==, !=, a switch, a named condition or a predicate function.
 func c05ResizeApplied(c *eng.Ctx, rule string, wantType string) {
 	sy := c.MustMethod(pkgFCRemote, "localWrapper", "Sync")
 	if sy == nil {
 		return
 	}
-	isType := func(v ssa.Value) bool {
-		cc, _ := eng.CallResultOf(v)
-		return cc != nil && eng.IsCall(cc, pkgFC+".GuessFlowControlSchemaType")
-	}
-	isResize := func(i ssa.Instruction) bool {
+	isResize := eng.LiftMust(func(i ssa.Instruction) bool {
 		ci, ok := i.(ssa.CallInstruction)
 		return ok && eng.MethodNameIs(ci, "Resize")
-	}
-	n := 0
-	for _, b := range sy.Blocks {
-		iff, ok := b.Instrs[len(b.Instrs)-1].(*ssa.If)
-		if !ok {
-			continue
+	})
+	var fact *boolFact
+	fact = &boolFact{w: c.W, atom: func(r eng.Rel, fr *callBind) bool {
+		if r.Op != token.EQL {
+			return false
 		}
-		r := eng.RelOf(iff.Cond, true)
+		isType := func(v ssa.Value) bool {
+			v, _ = fact.resolve(v, fr)
+			cc, _ := eng.CallResultOf(v)
+			return cc != nil && eng.IsCall(cc, pkgFC+".GuessFlowControlSchemaType")
+		}
 		var k ssa.Value
 		switch {
 		case isType(r.X):
@@ -40,23 +242,32 @@ func c05ResizeApplied(c *eng.Ctx, rule string, wantType string) {
 		case isType(r.Y):
 			k = r.X
 		default:
-			continue
+			return false
 		}
 		name, isConst := eng.StringConst(k)
-		if !isConst || (r.Op != token.EQL && r.Op != token.NEQ) {
-			continue
+		return isConst && name == wantType
+	}}
+	n := 0
+	for _, fn := range c.W.Region(sy) {
+		for _, b := range fn.Blocks {
+			if len(b.Instrs) == 0 {
+				continue
+			}
+			iff, ok := b.Instrs[len(b.Instrs)-1].(*ssa.If)
+			if !ok {
+				continue
+			}
+			for si := range b.Succs {
+				if !fact.edge(b, si) {
+					continue
+				}
+				n++
+				// entering the successor through this very edge
+				skip := eng.ReachFromBlock(b.Succs[si], eng.PathQuery{Target: eng.IsExit, Avoid: isResize})
+				c.Check(rule, sy, fmt.Sprintf("type %s ⇒ Resize on every path", wantType), iff.Pos(), skip == nil,
+					"the new configuration is recorded before this point, so a path that skips Resize (for instance under a test on the new value) leaves the limiter at the old limit for good")
+			}
 		}
-		if wantType != "" && name != wantType {
-			continue
-		}
-		succ := b.Succs[0]
-		if r.Op == token.NEQ {
-			succ = b.Succs[1]
-		}
-		n++
-		skip := eng.ReachFromBlock(succ, eng.PathQuery{Target: eng.IsExit, Avoid: isResize})
-		c.Check(rule, sy, fmt.Sprintf("type %s ⇒ Resize on every path", name), iff.Pos(), skip == nil,
-			"the new configuration is recorded before this point, so a path that skips Resize (for instance under a test on the new value) leaves the limiter at the old limit for good")
 	}
 	if n == 0 {
 		c.Fail(rule, sy, "type ⇒ Resize on every path", sy.Pos(), "no branch on the schema type found in localWrapper.Sync")
